@@ -2,7 +2,7 @@
 import srvprops
 
 PROP = "C08"
-THEOREMS = ["C08_model_smoke"]
+THEOREMS = ["C08_gate_fail_closed", "C08_alteration_exact", "C08_no_alteration_passthrough", "C08_attribution", "C08_whole_frame"]
 
 
 def run(tier, replay=None):
